@@ -8,13 +8,26 @@ package bits
 // ---- options: closures over the unexported config. optNbDigits(o) is the digit count a WithNbDigits
 // option sets (0 for the other options); definitional, the closure bodies are not traced.
 //@ spec func optNbDigits(o BaseConversionOption) int
+// optUnc(o) / optOmit(o): o is a WithUnconstrainedOutputs() / OmitModulusCheck() option (the three kinds exclude each other)
+//@ spec func optUnc(o BaseConversionOption) bool
+//@ spec func optOmit(o BaseConversionOption) bool
 //@ contract WithNbDigits
 //@   trusted
 //@   pure
-//@   ensures optNbDigits(result) == nbDigits
+//@   ensures optNbDigits(result) == nbDigits && !optUnc(result) && !optOmit(result)
+//@ contract WithUnconstrainedOutputs
+//@   trusted
+//@   pure
+//@   ensures optUnc(result) && !optOmit(result) && optNbDigits(result) == 0
+//@ contract OmitModulusCheck
+//@   trusted
+//@   pure
+//@   ensures optOmit(result) && !optUnc(result) && optNbDigits(result) == 0
 //@ contract functype BaseConversionOption
 //@   assigns *opt
-//@   ensures optNbDigits(self) > 0 ==> result == nil && opt.NbDigits == optNbDigits(self) && opt.UnconstrainedOutputs == old(opt.UnconstrainedOutputs) && opt.UnconstrainedInputs == old(opt.UnconstrainedInputs) && opt.omitModulusCheck == old(opt.omitModulusCheck)
+//@   ensures optNbDigits(self) > 0 && !optUnc(self) && !optOmit(self) ==> result == nil && opt.NbDigits == optNbDigits(self) && opt.UnconstrainedOutputs == old(opt.UnconstrainedOutputs) && opt.UnconstrainedInputs == old(opt.UnconstrainedInputs) && opt.omitModulusCheck == old(opt.omitModulusCheck)
+//@   ensures optUnc(self) && !optOmit(self) && optNbDigits(self) == 0 ==> result == nil && opt.UnconstrainedOutputs && opt.NbDigits == old(opt.NbDigits) && opt.UnconstrainedInputs == old(opt.UnconstrainedInputs) && opt.omitModulusCheck == old(opt.omitModulusCheck)
+//@   ensures optOmit(self) && !optUnc(self) && optNbDigits(self) == 0 ==> result == nil && opt.omitModulusCheck && opt.NbDigits == old(opt.NbDigits) && opt.UnconstrainedInputs == old(opt.UnconstrainedInputs) && opt.UnconstrainedOutputs == old(opt.UnconstrainedOutputs)
 
 // MustBeLessOrEqCst (implemented by both builders): the bits are boolean and their sum is <= bound
 //@ contract iface bitsComparatorConstant.MustBeLessOrEqCst
@@ -23,21 +36,35 @@ package bits
 
 // ---- toBinary. okOpts: no option, or exactly one WithNbDigits(n) option with n > 0 (the cases under contract).
 // nb(result) = min(len(result), FieldBitLen()) is the number of hinted bits; the rest is zero padding.
-//@ spec func okOpts(opts []BaseConversionOption) bool = len(opts) == 0 || (len(opts) == 1 && optNbDigits(opts[0]) > 0)
+//@ spec func isNb(o BaseConversionOption) bool = optNbDigits(o) > 0 && !optUnc(o) && !optOmit(o)
+//@ spec func okOpts(opts []BaseConversionOption) bool = len(opts) == 0 || (len(opts) == 1 && isNb(opts[0]))
+// rawOpts: WithNbDigits(n), WithUnconstrainedOutputs() and optionally OmitModulusCheck(), in this order (the builders'
+// comparisons ask for n raw digits: what is stated is the recomposition)
+//@ spec func rawOpts(opts []BaseConversionOption) bool = len(opts) == 3 && isNb(opts[0]) && optUnc(opts[1]) && !optOmit(opts[1]) && optNbDigits(opts[1]) == 0 && optOmit(opts[2]) && !optUnc(opts[2]) && optNbDigits(opts[2]) == 0
+//@ spec func raw2Opts(opts []BaseConversionOption) bool = len(opts) == 2 && isNb(opts[0]) && optUnc(opts[1]) && !optOmit(opts[1]) && optNbDigits(opts[1]) == 0
 //@ spec func nb(r []Variable) int = len(r) < fieldBits() ? len(r) : fieldBits()
 //@ contract toBinary
 //@   props C05
 //   (v: the R1CS builder's boolean bookkeeping may reorder the terms of a linear expression it is handed)
 //@   assigns api, v
 //@   requires api != nil
-//@   ensures @len (len(opts) == 0 ==> len(result) == fieldBits()) && (len(opts) == 1 && optNbDigits(opts[0]) > 0 ==> len(result) == optNbDigits(opts[0])) && fresh(result)
+//@   ensures @len (len(opts) == 0 ==> len(result) == fieldBits()) && (len(opts) == 1 && isNb(opts[0]) ==> len(result) == optNbDigits(opts[0])) && fresh(result)
+//@   ensures @len-raw rawOpts(opts) ==> len(result) == optNbDigits(opts[0]) && fresh(result)
+//@   ensures @recompose-raw rawOpts(opts) ==> den(v) == fsum(result, nb(result))
+//@   ensures @elem-zero-raw rawOpts(opts) ==> forall k int :: nb(result) <= k && k < len(result) ==> den(result[k]) == f0
+//@   ensures @len-raw2 raw2Opts(opts) ==> len(result) == optNbDigits(opts[0]) && fresh(result)
+//@   ensures @recompose-raw2 raw2Opts(opts) ==> den(v) == fsum(result, nb(result))
 //@   ensures @elem-bool okOpts(opts) ==> forall k int :: 0 <= k && k < nb(result) ==> isBool(den(result[k]))
 //@   ensures @elem-zero okOpts(opts) ==> forall k int :: nb(result) <= k && k < len(result) ==> den(result[k]) == f0
 //@   ensures @recompose okOpts(opts) ==> den(v) == fsum(result, nb(result))
 //@   ensures @canonical okOpts(opts) && len(result) >= fieldBits() ==> allBool(result[:nb(result)]) && bsum(result[:nb(result)]) <= fieldP() - 1
 //@   lemma @fsum1 fsum(result, 1) == den(result[0])
 //@   loop 1 invariant @no-opts rangeindex < 0 ==> cfg.NbDigits == fieldBits() && !cfg.UnconstrainedOutputs && !cfg.omitModulusCheck
-//@   loop 1 invariant @nbdigits rangeindex == 0 && optNbDigits(opts[0]) > 0 ==> cfg.NbDigits == optNbDigits(opts[0]) && !cfg.UnconstrainedOutputs && !cfg.omitModulusCheck
+//@   loop 1 invariant @nbdigits rangeindex == 0 && isNb(opts[0]) ==> cfg.NbDigits == optNbDigits(opts[0]) && !cfg.UnconstrainedOutputs && !cfg.omitModulusCheck
+//@   loop 1 invariant @raw0 rawOpts(opts) && rangeindex >= 0 ==> cfg.NbDigits == optNbDigits(opts[0])
+//@   loop 1 invariant @raw1 rawOpts(opts) && rangeindex >= 1 ==> cfg.UnconstrainedOutputs
+//@   loop 1 invariant @raw2 rawOpts(opts) && rangeindex >= 2 ==> cfg.omitModulusCheck
+//@   loop 1 invariant @raw20 raw2Opts(opts) && rangeindex >= 0 ==> cfg.NbDigits == optNbDigits(opts[0])
 //@   loop 2 invariant @acc 0 <= i && i <= cfg.NbDigits && c != nil && *c == pow2(i) && den(Σbi) == fsum(bits, i)
 //@   loop 2 invariant @bits !cfg.UnconstrainedOutputs ==> forall k int :: 0 <= k && k < i ==> isBool(den(bits[k]))
 //@   loop 2 lemma @fsum0 fsum(bits, 0) == f0
@@ -45,7 +72,8 @@ package bits
 //@   loop 3 invariant @zeros forall k int :: cfg.NbDigits <= k && k < i ==> den(bits[k]) == f0
 //@   loop 3 invariant @shape cfg.NbDigits <= fieldBits() && cfg.NbDigits <= len(bits) && (len(bits) > cfg.NbDigits ==> cfg.NbDigits == fieldBits()) && fresh(bits)
 //@   loop 3 invariant @canonical !cfg.UnconstrainedOutputs && !cfg.omitModulusCheck && cfg.NbDigits >= fieldBits() ==> allBool(bits[:cfg.NbDigits]) && bsum(bits[:cfg.NbDigits]) <= fieldP() - 1
-//@   loop 3 invariant @kept den(v) == fsum(bits, cfg.NbDigits) && (!cfg.UnconstrainedOutputs ==> forall k int :: 0 <= k && k < cfg.NbDigits ==> isBool(den(bits[k])))
+//@   loop 3 invariant @kept den(v) == fsum(bits, cfg.NbDigits)
+//@   loop 3 invariant @kept-bool !cfg.UnconstrainedOutputs ==> forall k int :: 0 <= k && k < cfg.NbDigits ==> isBool(den(bits[k]))
 
 // ---- ToBinary
 // Without options: the canonical decomposition of v on FieldBitLen() boolean wires.
@@ -61,10 +89,14 @@ package bits
 //@   ensures @default-len len(opts) == 0 ==> len(result) == fieldBits() && fresh(result)
 //@   ensures @default-bool len(opts) == 0 ==> allBool(result)
 //@   ensures @default-sum len(opts) == 0 ==> bsum(result) == ival(den(v))
-//@   ensures @nbdigits-len len(opts) == 1 && optNbDigits(opts[0]) > 0 ==> len(result) == optNbDigits(opts[0]) && fresh(result)
-//@   ensures @nbdigits-bool len(opts) == 1 && optNbDigits(opts[0]) > 0 ==> allBool(result)
-//@   ensures @nbdigits-sum len(opts) == 1 && optNbDigits(opts[0]) > 0 ==> bsum(result) == ival(den(v))
-//@   ensures @nbdigits-fits len(opts) == 1 && optNbDigits(opts[0]) > 0 ==> fits(ival(den(v)), optNbDigits(opts[0]))
+//@   ensures @raw-len rawOpts(opts) ==> len(result) == optNbDigits(opts[0]) && fresh(result)
+//@   ensures @raw-sum rawOpts(opts) ==> den(v) == fsum(result, nb(result)) && (forall k int :: nb(result) <= k && k < len(result) ==> den(result[k]) == f0)
+//@   ensures @raw2-len raw2Opts(opts) ==> len(result) == optNbDigits(opts[0]) && fresh(result)
+//@   ensures @raw2-sum raw2Opts(opts) ==> den(v) == fsum(result, nb(result))
+//@   ensures @nbdigits-len len(opts) == 1 && isNb(opts[0]) ==> len(result) == optNbDigits(opts[0]) && fresh(result)
+//@   ensures @nbdigits-bool len(opts) == 1 && isNb(opts[0]) ==> allBool(result)
+//@   ensures @nbdigits-sum len(opts) == 1 && isNb(opts[0]) ==> bsum(result) == ival(den(v))
+//@   ensures @nbdigits-fits len(opts) == 1 && isNb(opts[0]) ==> fits(ival(den(v)), optNbDigits(opts[0]))
 
 // ---- fromBinary / FromBinary: sum_k digits[k]*2^k as a field element; without options every digit is forced boolean.
 //@ contract fromBinary
